@@ -77,6 +77,8 @@ inductive ConfigError where
   | internal (exc : String)                     -- any other Python exception (never produced on the pinned tables)
   deriving Repr, DecidableEq, Inhabited
 
+deriving instance DecidableEq for Except
+
 /-- the Python exception class that surfaces -/
 def ConfigError.pyClass : ConfigError → String
   | .missingSection | .scalarMissingType | .missingFields _ => "MissingConfiguration"
@@ -526,8 +528,7 @@ def scalarsMarker (ss : List ScalarData) : J := .obj (ss.map fun s => (s.graphql
 
 /-- the dataclass `__init__`: keyword arguments filtered by `key in settings_fields_names`,
     defaults for the rest (unknown keys are never looked at) -/
-def buildClient (env : Env) (sec : Dict) (scalars : List ScalarData) : Except ConfigError ClientSettings := do
-  let sec := sec.filter (fun kv => clientFieldNames.contains kv.1)
+def assignClientFields (env : Env) (sec : Dict) (scalars : List ScalarData) : Except ConfigError ClientSettings := do
   let base ← getBase sec
   let comments ← getStr sec "include_comments" "stable"
   pure {
@@ -551,6 +552,10 @@ def buildClient (env : Env) (sec : Dict) (scalars : List ScalarData) : Except Co
     filesToInclude := ← getStrList sec "files_to_include"
     scalars := scalars
     missing := clientFieldNames.filter (fun f => !(J.hasKey f sec)) }
+
+/-- `ClientSettings(**{key: value for key, value in section.items() if key in settings_fields_names})` -/
+def buildClient (env : Env) (sec : Dict) (scalars : List ScalarData) : Except ConfigError ClientSettings :=
+  assignClientFields env (sec.filter (fun kv => clientFieldNames.contains kv.1)) scalars
 
 /-- result of reading settings: what is returned/raised, whether the deprecation warning for the
     top-level section / for a boolean `include_comments` was issued, and the caller's dict afterwards -/
